@@ -27,6 +27,7 @@ from MIP.geom.cells import get_cells, get_cell_importances
 from MIP.geom.parsegeom import get_ast
 from MIP.geom.transforms import to_cos
 from MIP.mip.datacard import expand_data_card
+from MIP.mip.utils import mcnp_float
 from ...Progress import Progress
 from ...Volume.CellMCNP import CellMCNP
 from ...Volume.Lattice import parse_ranges, LatticeSpec
@@ -231,7 +232,7 @@ class ParseMCNPCell:
         while kw_list:
             elt = kw_list.pop()
             if elt.startswith('imp'):
-                importance = float(kw_list.pop())
+                importance = mcnp_float(kw_list.pop())
                 # the importance of the cell is the maximum over the particle
                 # types; for a given particle type, the last value wins (this
                 # is how LIKE n BUT overrides the importance)
@@ -248,7 +249,7 @@ class ParseMCNPCell:
             elif 'trcl' in elt:
                 keywords['trcl'] = self.parse_trcl_kw(elt, kw_list)
             elif 'u' in elt:
-                keywords['u'] = int(float(kw_list.pop()))
+                keywords['u'] = int(mcnp_float(kw_list.pop()))
             elif 'rho' in elt:
                 # only relevant for LIKE n BUT cells
                 keywords['density'] = kw_list.pop()
@@ -279,9 +280,9 @@ class ParseMCNPCell:
             del kw_list[-consumed:]  # remove the last `consumed` elements
             fillid_bounds = bounds
         else:
-            fillid_u = int(float(first_arg))
+            fillid_u = int(mcnp_float(first_arg))
         while kw_list and kw_list[-1][0] in '0123456789.+-':
-            fill_params.append(float(kw_list.pop()))
+            fill_params.append(mcnp_float(kw_list.pop()))
         # now handle the case where the number of the
         # transformation was given instead of the transformation
         # parameters
@@ -333,13 +334,13 @@ class ParseMCNPCell:
             trcl_params = self.transforms[trid][:12]
             # no need to apply to_cos, MIP takes care of it
         elif len(trcl_params) == 3:
-            trcl_params = [float(param) for param in trcl_params[:12]]
+            trcl_params = [mcnp_float(param) for param in trcl_params[:12]]
             trcl_params += [1., 0., 0.,
                             0., 1., 0.,
                             0., 0., 1.]
         elif trcl_params:
             # this is the case where the transform parameters were given inline
-            trcl_params = [float(x) for x in trcl_params]
+            trcl_params = [mcnp_float(x) for x in trcl_params]
             if '*' in elt:
                 trcl_params[3:12] = list(map(to_cos, trcl_params[3:12]))
             trcl_params = normalize_transform(trcl_params)
